@@ -247,7 +247,7 @@ prop('C16',
      scenarios=lambda tier: [sc('httpapi')] * (2 if tier == 'quick' else 8) + [sc('conc')],
      diverge={'A': None, 'U': {'accept', 'post'}},
      nontrivial_line=lambda k, line: k == 'A',
-     rule='histories of accepted and refused updates over 1..4 logs (IDs from log.ID) on in-memory, SQLite :memory: and SQLite file stores; after steps, GET checkpoint through the registered gorilla/mux handlers (httptest server) and through the bundled client for every known ID and for unknown / odd IDs (upper case, truncated, extended, -, _, ., %2F, empty, .., 200 characters, %00, non-ASCII, spaces), GET logs decoded and sorted; whenever the service hands out an ETag or Last-Modified a later probe revalidates with it (304 only while the stored bytes are unchanged; between two probes every log is refreshed with the SAME text under other signature bytes); a read parked inside storage, an update accepted, then a second read (it must see the update); a quarter of the probes run while the store fails Logs / ReadOps / GetLatest, or (SQLite through the wrapping database/sql driver) while Query or the first, second or third Rows.Next fails (an error status is the only truthful answer: never 404, never \'does not exist\', never a 200 list that is not the stored set); compared with the model and the monitors 200 => that log holds exactly these bytes, else 404, client maps 404 to ErrNotExist')
+     rule='histories of accepted and refused updates over 1..4 logs (IDs from log.ID) on in-memory, SQLite :memory: and SQLite file stores; after steps, GET checkpoint through the registered gorilla/mux handlers (httptest server) and through the bundled client for every known ID and for unknown / odd IDs (upper case, truncated, extended, -, _, ., %2F, empty, .., 200 characters, %00, non-ASCII, spaces), GET logs decoded and sorted; whenever the service hands out an ETag or Last-Modified a later probe revalidates with it (304 only while the stored bytes are unchanged; between two probes every log is refreshed with the SAME text under other signature bytes); a read parked inside storage, an update accepted, then a second read (it must see the update); every history stores honest checkpoints of about 1.5, 3 and 10 KB (both sides of the 2048-byte chunking boundary of net/http) and probes after each; a quarter of the probes run while the store fails Logs / ReadOps / GetLatest, or (SQLite through the wrapping database/sql driver) while Query or the first, second or third Rows.Next fails (an error status is the only truthful answer: never 404, never \'does not exist\', never a 200 list that is not the stored set); compared with the model and the monitors 200 => that log holds exactly these bytes, else 404, client maps 404 to ErrNotExist')
 
 prop('C18',
      modules=['WitnessVerif.Props.C18'],
